@@ -300,6 +300,9 @@ pub struct World {
     pub pinned: Vec<usize>,
     /// targets of the edges of objects dropped in the current call (released by drop glue)
     pub glue_targets: Vec<Oid>,
+    /// a callback manipulated pointers in the current call (the exact buffered-set prediction is
+    /// only claimed for calls whose callbacks do not)
+    pub ptr_ops_in_callbacks: bool,
     pub cur_op_kind: u8,
     pub cur_owner: &'static str,
     pub bytes_unknown: bool,
@@ -338,6 +341,29 @@ pub struct Flags {
 
 thread_local! {
     static WORLD: RefCell<Option<Box<World>>> = const { RefCell::new(None) };
+    /// C11: model of the set of buffered Node objects, maintained by the documented rules
+    /// (kept outside `World` because some pointer primitives run while the world is borrowed)
+    pub static BUF_MODEL: RefCell<BTreeSet<Oid>> = const { RefCell::new(BTreeSet::new()) };
+}
+
+pub fn buf_enter(oid: Oid) {
+    let _s = Bracket::suspend();
+    let _ = BUF_MODEL.try_with(|b| b.borrow_mut().insert(oid));
+}
+
+pub fn buf_leave(oid: Oid) {
+    let _s = Bracket::suspend();
+    let _ = BUF_MODEL.try_with(|b| b.borrow_mut().remove(&oid));
+}
+
+pub fn buf_set(set: BTreeSet<Oid>) {
+    let _s = Bracket::suspend();
+    let _ = BUF_MODEL.try_with(|b| *b.borrow_mut() = set);
+}
+
+pub fn buf_get() -> BTreeSet<Oid> {
+    let _s = Bracket::suspend();
+    BUF_MODEL.try_with(|b| b.borrow().clone()).unwrap_or_default()
 }
 
 /// Runs `f` with the world of the current thread. Never call a rust-cc API that can invoke
@@ -364,6 +390,7 @@ fn try_w<R>(f: impl FnOnce(&mut World) -> R) -> Option<R> {
 }
 
 pub fn install(world: World) {
+    buf_set(BTreeSet::new());
     WORLD.with(|c| *c.borrow_mut() = Some(Box::new(world)));
 }
 
@@ -428,6 +455,7 @@ impl World {
             clean_calls: Vec::new(),
             pinned: Vec::new(),
             glue_targets: Vec::new(),
+            ptr_ops_in_callbacks: false,
             cur_op_kind: 0,
             cur_owner: "C04",
             bytes_unknown: false,
@@ -970,12 +998,26 @@ impl Finalize for Node {
         if w(|w| fault_due(w, Kind::Finalize)) {
             throw(Kind::Finalize);
         }
-        let script = w(|w| w.objs[self.id as usize].spec.fin.clone());
+        let script = w(|w| {
+            let s = w.objs[self.id as usize].spec.fin.clone();
+            if !s.is_empty() {
+                w.ptr_ops_in_callbacks = true;
+            }
+            s
+        });
         for op in &script {
             if w(|w| w.budget_exceeded) {
                 break;
             }
             crate::heap::run_fin_op(self, op);
+        }
+        // C11 model: a finalizer run by the last Cc::drop that resurrected its object makes
+        // Cc::drop buffer the object instead of freeing it
+        if !flags.0 {
+            let id = self.id;
+            if w(|w| w.shadow_strong_no_inflight(id) > 0) {
+                buf_enter(id);
+            }
         }
     }
 }
@@ -1046,6 +1088,7 @@ impl Drop for Node {
         let flags = hook_flags();
         let addr = self as *const Node as usize;
         let mut saved: [Option<Option<Oid>>; 2] = [None; 2];
+        let mut glue: Vec<Oid> = Vec::new();
         let go = try_w(|w| {
             match canary_of(self) {
                 Canary::Live => {}
@@ -1133,6 +1176,9 @@ impl Drop for Node {
             }
             let call = w.call;
             let tg: Vec<Oid> = w.objs[oid as usize].slots.iter().flatten().map(|e| e.to).collect();
+            buf_leave(oid);
+            w.objs[oid as usize].slots = [None; NSLOTS];
+            glue = tg.clone();
             w.glue_targets.extend(tg);
             let o = &mut w.objs[oid as usize];
             saved = o.wslots;
@@ -1167,6 +1213,17 @@ impl Drop for Node {
                 }
             }
         }
+        // C11 model: after this callback the drop glue releases the pointers this value owned;
+        // a target that keeps other owners gets buffered
+        w(|w| {
+            for &y in &glue {
+                let oy = &w.objs[y as usize];
+                if !oy.dropped && oy.in_box && w.shadow_strong(y) > 0 {
+                    buf_enter(y);
+                    w.objs[y as usize].lost_ptr = true;
+                }
+            }
+        });
         if w(|w| fault_due(w, Kind::Drop)) {
             throw(Kind::Drop);
         }
@@ -1219,6 +1276,17 @@ pub fn prim_drop(cc: Cc<Node>, oid: Oid) {
         drop(cc);
     }
     g.1 = true;
+    // C11 model: a non-last drop buffers the object; the last one frees it (or, if a finalizer
+    // resurrected it, buffers it)
+    let stays = w(|w| {
+        let o = &w.objs[oid as usize];
+        !o.dropped && o.in_box && w.shadow_strong_no_inflight(oid) > 0
+    });
+    if stays {
+        buf_enter(oid);
+    } else {
+        buf_leave(oid);
+    }
 }
 
 pub fn new_obj(w: &mut World, spec: Spec) -> Oid {
